@@ -303,7 +303,9 @@ fn verif_native_c13_conventions() {
     }
     // merc on a sphere == webmerc on the same sphere; lat_ts == k_0; 1SP lcc == 2SP lcc with equal parallels
     let pts = dom((-150.0, 150.0), (-80.0, 80.0));
-    let pairs: [(&str, &str, &str, f64); 3] = [
+    let pairs: [(&str, &str, &str, f64); 5] = [
+        ("latts_neg", "merc lat_ts=-60 ellps=sphere", "merc k_0=0.5 ellps=sphere", 1e-6),
+        ("lcc1sp_s", "lcc lat_1=-33 lon_0=140", "lcc lat_1=-33 lat_2=-33 lon_0=140", 1e-6),
         ("sphere", "merc ellps=sphere", "webmerc ellps=sphere", 1e-6),
         ("latts", "merc lat_ts=60 ellps=sphere", "merc k_0=0.5 ellps=sphere", 1e-6),
         ("lcc1sp", "lcc lat_1=45 lon_0=10", "lcc lat_1=45 lat_2=45 lon_0=10", 1e-6),
